@@ -148,6 +148,19 @@ func (s *Server) followCheckSome(addr string, followc int, auth string,
 		return 0, errNoLongerFollowing
 	}
 	if s.aofsz < checksumsz {
+		// There is too little local data to compare with the leader. The
+		// leader's log is going to be streamed from position 0, so start
+		// over from an empty dataset and an empty log; otherwise it would be
+		// applied on top of (and counted in addition to) what is here.
+		if s.aofsz > 0 || s.cols.Len() > 0 || s.hooks.Len() > 0 {
+			s.aof.Close()
+			s.aof, err = os.Create(s.aof.Name())
+			if err != nil {
+				log.Fatalf("could not recreate aof, possible data loss. %s", err.Error())
+				return 0, err
+			}
+			s.reset()
+		}
 		return 0, nil
 	}
 
@@ -200,6 +213,7 @@ func (s *Server) followCheckSome(addr string, followc int, auth string,
 			log.Fatalf("could not recreate aof, possible data loss. %s", err.Error())
 			return 0, err
 		}
+		s.reset()
 		return 0, nil
 	}
 
